@@ -122,15 +122,22 @@ func reposMapDecode(b []byte) (ReposMap, error) {
 		return nil, fmt.Errorf("unsupported stringSet encoding version %d", v)
 	}
 
-	// Length
+	// Length. Every entry takes at least 3 bytes and every branch at least 2, so a
+	// count that exceeds the input is malformed (and must not size an allocation).
 	l := r.uvarint()
+	allBranchesLen := r.uvarint()
+	if r.err != nil || l < 0 || l > len(r.b) || allBranchesLen < 0 || allBranchesLen > len(r.b) {
+		return nil, fmt.Errorf("malformed %s", r.typ)
+	}
 	m := make(map[uint32]MinimalRepoListEntry, l)
 
 	// Pre-allocate slice for all branches
-	allBranchesLen := r.uvarint()
 	allBranches := make([]RepositoryBranch, 0, allBranchesLen)
 
 	for range l {
+		if r.err != nil {
+			return nil, r.err
+		}
 		repoID := r.uvarint()
 		hasSymbols := r.byt() == 1
 		var indexTimeUnix int64
@@ -138,6 +145,9 @@ func reposMapDecode(b []byte) (ReposMap, error) {
 			indexTimeUnix = int64(r.uvarint())
 		}
 		lb := r.uvarint()
+		if lb < 0 || lb > len(r.b) {
+			return nil, fmt.Errorf("malformed %s", r.typ)
+		}
 		for range lb {
 			allBranches = append(allBranches, RepositoryBranch{
 				Name:    r.str(),
@@ -174,7 +184,7 @@ func (b *binaryReader) uvarint() int {
 
 func (b *binaryReader) str() string {
 	l := b.uvarint()
-	if l > len(b.b) {
+	if l < 0 || l > len(b.b) {
 		b.b = nil
 		b.err = fmt.Errorf("malformed %s", b.typ)
 		return ""
